@@ -117,12 +117,47 @@ pub fn adjust(cfg: &mut SwarmCfg, tier: &str, r: &mut Prng) {
             setw(cfg, "burst", if r.chance(1, 3) { 3 } else { 0 });
             cfg.knobs.push(("dup-heavy".into(), 1));
         }
+        "C18" => {
+            cfg.oracles = sv(&["agreement", "retention", "state-unchanged", "psk-twin"]);
+            cfg.faults = sv(&["A-PSK-MISSING", "A-PSK-DIFF", "N-REORD", "N-RACE"]);
+            cfg.knobs.push(("psk".into(), 2));
+            cfg.n_parties = cfg.n_parties.clamp(3, 7);
+            setw(cfg, "commit", 18);
+            setw(cfg, "propose", 12);
+            setw(cfg, "write", 10);
+            setw(cfg, "ext_commit", 3);
+            setw(cfg, "crash", 0);
+        }
+        "C19" => {
+            cfg.oracles = sv(&["agreement", "retention", "state-unchanged"]);
+            cfg.faults = sv(&["N-DELAY", "N-REORD", "N-DUP", "P-CRASH"]);
+            cfg.storage = *r.pick(&[StorageKind::Mem, StorageKind::Sql, StorageKind::Mirror, StorageKind::Mirror]);
+            cfg.n_parties = cfg.n_parties.clamp(3, 7);
+            setw(cfg, "send_app", 30);
+            setw(cfg, "deliver", 6);
+            setw(cfg, "commit", 14);
+            setw(cfg, "propose", 4);
+            setw(cfg, "write", *r.pick(&[0u32, 2, 8, 20]));
+            if r.chance(1, 3) {
+                cfg.scenario = "two-groups".into();
+                cfg.knobs.push(("groups".into(), 2));
+            }
+            setw(cfg, "crash", 1);
+            setw(cfg, "reload", 10);
+        }
         "C06" => {
             cfg.oracles = sv(&["agreement", "restore"]);
             cfg.faults = sv(&["P-CRASH", "N-REORD", "N-DUP", "N-RACE", "N-STALE", "crash-with-pending"]);
             cfg.storage = *r.pick(&[StorageKind::Mem, StorageKind::Sql, StorageKind::Mirror, StorageKind::Mirror]);
             cfg.n_parties = cfg.n_parties.min(7);
             cfg.knobs.push(("twins".into(), r.range(1, 3)));
+            if r.chance(1, 3) {
+                cfg.scenario = "two-groups".into();
+                cfg.knobs.push(("groups".into(), 2));
+                cfg.oracles.push("retention".into());
+                setw(cfg, "deliver", 6);
+                setw(cfg, "send_app", 20);
+            }
             setw(cfg, "write", 16);
             setw(cfg, "crash", 3);
             setw(cfg, "reload", 12);
@@ -163,7 +198,7 @@ pub fn adjust(cfg: &mut SwarmCfg, tier: &str, r: &mut Prng) {
 }
 
 pub fn extra_kinds(w: &World, kinds: &mut Vec<(&'static str, u32)>) {
-    let g = 0;
+    let g = w.ext.cur_g;
     if w.cfg.weight("corrupt") > 0 && !w.live_members(g).is_empty() && !w.msgs.is_empty() {
         kinds.push(("corrupt", w.cfg.weight("corrupt")));
     }
@@ -240,7 +275,7 @@ fn random_mutation(w: &mut World, target: u64) -> Mutation {
 }
 
 pub fn extra_action(w: &mut World, kind: &str) -> Option<Action> {
-    let g = 0usize;
+    let g = w.ext.cur_g;
     match kind {
         "corrupt" => {
             let live = w.live_members(g);
@@ -294,7 +329,7 @@ pub fn extra_action(w: &mut World, kind: &str) -> Option<Action> {
                 kind: "apply_detached".into(),
                 a: p as u64,
                 b: w.prng.below(8),
-                c: 0,
+                c: g as u64,
             })
         }
         "byz" => {
@@ -320,6 +355,21 @@ pub fn adjust_commit(w: &mut World, _p: usize, _g: usize, spec: &mut CommitSpec)
             spec.detached = true;
         }
     }
+    if w.cfg.knob("psk") == Some(2) && w.prng.chance(1, 2) {
+        let n = w.prng.range(0, 3);
+        for _ in 0..n {
+            let id = w.prng.below(4) as u8;
+            if !spec.ext_psks.contains(&id) {
+                spec.ext_psks.push(id);
+            }
+        }
+        if w.prng.chance(1, 2) {
+            let back = w.prng.below(w.cfg.retention + 3) as u8;
+            if !spec.res_psks.contains(&back) {
+                spec.res_psks.push(back);
+            }
+        }
+    }
     if w.cfg.knob("psk") == Some(1) && w.prng.chance(1, 4) {
         let n = w.prng.range(1, 2);
         for _ in 0..n {
@@ -332,16 +382,46 @@ pub fn adjust_commit(w: &mut World, _p: usize, _g: usize, spec: &mut CommitSpec)
 }
 
 pub fn prop_spec_override(
-    _w: &mut World,
+    w: &mut World,
     _p: usize,
     _g: usize,
     _opts: &mut Vec<u32>,
 ) -> Option<PropSpec> {
+    if w.cfg.knob("psk") == Some(2) && w.prng.chance(1, 3) {
+        return Some(if w.prng.chance(1, 2) {
+            PropSpec::ExtPsk {
+                id: w.prng.below(4) as u8,
+            }
+        } else {
+            PropSpec::ResPsk {
+                back: w.prng.below(w.cfg.retention + 2) as u8,
+            }
+        });
+    }
     None
 }
 
 /// run-level set-up after the world is created (who creates the group, PSK distribution, ...)
 pub fn setup(w: &mut World) -> VResult<()> {
+    if w.cfg.knob("psk") == Some(2) {
+        // divergent PSK stores: per party and id the common value, another value, or nothing
+        for id in 0..4u8 {
+            let value = crate::prng::Prng::new(crate::prng::mix(&[w.seed, 0x95c, id as u64])).bytes(32);
+            for p in 0..w.parties.len() {
+                match w.prng.below(10) {
+                    0 => {
+                        w.stats.fault("A-PSK-MISSING");
+                    }
+                    1 => {
+                        let other = w.prng.bytes(32);
+                        w.parties[p].pskstore.put(&[b'k', id], &other);
+                        w.stats.fault("A-PSK-DIFF");
+                    }
+                    _ => w.parties[p].pskstore.put(&[b'k', id], &value),
+                }
+            }
+        }
+    }
     if w.cfg.knob("psk") == Some(1) {
         // every party holds the same value for external PSK ids k0..k2
         for id in 0..3u8 {
@@ -352,6 +432,11 @@ pub fn setup(w: &mut World) -> VResult<()> {
         }
     }
     w.create_group(0)?;
+    if w.cfg.knob("groups") == Some(2) && w.parties.len() >= 2 {
+        // a second group among the same parties, kept in the same stores
+        w.create_group(1)?;
+        w.stats.probe("two-groups-in-one-world");
+    }
     Ok(())
 }
 
